@@ -164,6 +164,7 @@ fn run_history(ops: &[SOp], nsig: usize, with_app: bool) -> Outcome {
     // model
     let mut configured: u8 = 0;
     let mut pending: u8 = 0; // configured, raised, not reported yet
+    let mut pending_t: u8 = 0; // the same for thread-directed instances
     let mut handler_min = [0u32; 6];
     let mut handler_max = [0u32; 6];
     let pid = unsafe { libc::getpid() } as u32;
@@ -179,7 +180,9 @@ fn run_history(ops: &[SOp], nsig: usize, with_app: bool) -> Outcome {
             break;
         }
         let before_cfg = configured;
-        let before_pending = pending;
+        let before_pending = pending | pending_t;
+        let before_pending_t = pending_t;
+        let before_pending_p = pending;
         let mut desc = format!("{:?}", op);
         match *op {
             SOp::New(m) => {
@@ -229,13 +232,22 @@ fn run_history(ops: &[SOp], nsig: usize, with_app: bool) -> Outcome {
                 let i = i as usize % nsig;
                 let n = (n % 3) + 1;
                 desc = format!("Raise({:?} x{})", sigs()[i].0, n);
-                for _ in 0..n {
+                // one instance: process-directed; two or three: also a thread-directed one (raise), which is queued
+                // separately from the process-directed instance(s) and must be reported as well
+                for k in 0..n {
                     unsafe {
-                        libc::kill(libc::getpid(), sigs()[i].1);
+                        if k == 1 {
+                            libc::raise(sigs()[i].1);
+                        } else {
+                            libc::kill(libc::getpid(), sigs()[i].1);
+                        }
                     }
                 }
                 if configured & (1 << i) != 0 {
                     pending |= 1 << i;
+                    if n >= 2 {
+                        pending_t |= 1 << i;
+                    }
                 } else {
                     handler_min[i] += n as u32;
                     handler_max[i] += n as u32;
@@ -248,6 +260,7 @@ fn run_history(ops: &[SOp], nsig: usize, with_app: bool) -> Outcome {
                     alarm(&mut out, "api_ok", "dispatch-failed", format!("dispatch failed: {}", e));
                 }
                 let mut seen: u8 = 0;
+                let mut twice: u8 = 0;
                 for (signo, p, u) in &acc {
                     out.reported += 1;
                     let idx = sigs().iter().position(|s| s.1 == *signo);
@@ -255,7 +268,11 @@ fn run_history(ops: &[SOp], nsig: usize, with_app: bool) -> Outcome {
                         None => alarm(&mut out, "reported_once", "unknown-signal-reported", format!("signal {} reported", signo)),
                         Some(i) => {
                             if seen & (1 << i) != 0 {
-                                alarm(&mut out, "reported_once", "signal-reported-twice", format!("{:?} reported twice in one dispatch", sigs()[i].0));
+                                // a second report is right when a thread-directed and a process-directed instance were pending
+                                if twice & (1 << i) != 0 || pending_t & pending & (1 << i) == 0 {
+                                    alarm(&mut out, "reported_once", "signal-reported-twice", format!("{:?} reported more often in one dispatch than instances were pending", sigs()[i].0));
+                                }
+                                twice |= 1 << i;
                             }
                             seen |= 1 << i;
                             if configured & (1 << i) == 0 {
@@ -269,12 +286,18 @@ fn run_history(ops: &[SOp], nsig: usize, with_app: bool) -> Outcome {
                         }
                     }
                 }
-                let missed = pending & configured & !seen;
+                let missed = (pending | pending_t) & configured & !seen;
                 if missed != 0 && src.is_some() {
                     alarm(&mut out, "reported_once", "pending-configured-signal-not-reported", format!("{:?} pending and configured but not reported by the dispatch", sigs_of(missed)));
                 }
+                let missed_second = pending & pending_t & configured & seen & !twice;
+                if missed_second != 0 && src.is_some() {
+                    alarm(&mut out, "reported_once", "second-pending-instance-not-reported", format!("{:?}: a thread-directed and a process-directed instance were pending, one report came", sigs_of(missed_second)));
+                }
                 pending &= !seen;
                 pending &= configured;
+                pending_t &= !seen;
+                pending_t &= configured;
             }
             SOp::Drop => {
                 if let Some((d, t)) = src.take() {
@@ -291,9 +314,13 @@ fn run_history(ops: &[SOp], nsig: usize, with_app: bool) -> Outcome {
                 out.mask_changes_with_pending += 1;
             }
             for i in 0..nsig {
-                if deconf & before_pending & (1 << i) != 0 {
+                if deconf & before_pending_p & (1 << i) != 0 {
                     handler_max[i] += 1;
                     pending &= !(1 << i);
+                }
+                if deconf & before_pending_t & (1 << i) != 0 {
+                    handler_max[i] += 1;
+                    pending_t &= !(1 << i);
                 }
             }
         }
